@@ -17,7 +17,8 @@ from engine import Violation, CaseResult
 PROP = "C15"
 
 FILE_NAMES = ("a.log", "b.log", "c.txt", "messages", "syslog", "zz.log", "A.log", "a b.log", "é.log", "日本.log", "x.log.gz",
-              "y.log.xz", "kern.log.1", "app.log.old", ".hidden.log", "m-n.log", "10.log", "9.log")
+              "y.log.xz", "kern.log.1", "app.log.old", ".hidden.log", "m-n.log", "10.log", "9.log",
+              "nightly.log ", " lead.log", "tab.log\t", "two  spaces.log")      # (blanks at either end of a name are part of the name)
 NONLOG_NAMES = ("pic.jpg", "tool.exe", "lib.so", "page.html", "run.sh", "arch.zip", "song.mp3", "page.html.gz", "core.bin.1.xz", "web.bin.1.gz")
 DIR_NAMES = ("a", "b", "a.d", "sub dir", "ünï", "Z", "0", ".hid")
 
